@@ -140,6 +140,19 @@ Fixed == {
   \* `modify` (typed and untyped) of a captured variable with a value of another type
   [name |-> "modify_typed_mismatch", bad |-> <<"tot = 10", "clo = fn() { modify tot: str = \"ten\" }" \o M, "clo()">>,
                                      good |-> <<"tot = 10", "clo = fn() { modify tot: int = 11 }", "clo()">>],
+  \* list literals: a row of another element type behind a well-typed or an empty row; an open list re-assigned / modified
+  \* with a literal of another element type
+  [name |-> "nested_row_wrong", bad |-> <<"gridf: [[int...]...] = [[1, 2], [1, 2, \"x\"]]" \o M>>, good |-> <<"gridf: [[int...]...] = [[1, 2], [1, 2, 3]]">>],
+  [name |-> "nested_row_after_empty", bad |-> <<"gridf: [[int...]...] = [[], [\"x\"]]" \o M>>, good |-> <<"gridf: [[int...]...] = [[], [1]]">>],
+  [name |-> "nested_row_str_in_third", bad |-> <<"gridf: [[int...]...] = [[1], [2], [\"x\"]]" \o M>>, good |-> <<"gridf: [[int...]...] = [[1], [2], [3]]">>],
+  [name |-> "nested_arg_row", bad |-> <<"takeg = fn(g: [[int...]...]) -> int { return g.len() }", "flt = takeg([[], [\"x\"]])" \o M>>,
+                              good |-> <<"takeg = fn(g: [[int...]...]) -> int { return g.len() }", "flt = takeg([[], [1]])">>],
+  [name |-> "reassign_open_list_literal", bad |-> <<"scf: [int...] = [10]", "scf = [\"ten\", \"twenty\"]" \o M>>,
+                                          good |-> <<"scf: [int...] = [10]", "scg: [int...] = [1, 2]", "scf = scg">>],
+  [name |-> "reassign_open_list_other", bad |-> <<"scf: [int...] = [10]", "sch: [str...] = [\"a\"]", "scf = sch" \o M>>,
+                                        good |-> <<"scf: [int...] = [10]", "scg: [int...] = [1, 2]", "scf = scg">>],
+  [name |-> "modify_open_list_literal", bad |-> <<"quf: [int...] = [1]", "clo = fn() { modify quf = [true, false] }" \o M, "clo()">>,
+                                        good |-> <<"quf: [int...] = [1]", "qug: [int...] = [2]", "clo = fn() { modify quf = qug }", "clo()">>],
   \* `modify` writes a variable that the enclosing function captured: outside of any function, or on a variable of the
   \* function itself, there is nothing to modify - also when the statement sits in a block
   [name |-> "modify_own_in_block", bad |-> <<"tot = 10", "if tot == 10 {", "	modify tot = 11" \o M, "}">>, good |-> <<"tot = 10", "if tot == 10 {", "	tot = 11", "}">>],
